@@ -103,8 +103,16 @@ func TimeStampToCdr(t *time.Time) cdrType.TimeStamp {
 
 func PlmnIdToCdr(modelsPlmnid models.PlmnId) cdrType.PLMNId {
 	var hexString string
+	// an MCC is three digits, an MNC two or three; anything else cannot be
+	// converted (and must not index past the digits that are there)
+	if len(modelsPlmnid.Mcc) != 3 || (len(modelsPlmnid.Mnc) != 2 && len(modelsPlmnid.Mnc) != 3) {
+		return cdrType.PLMNId{}
+	}
 	mcc := strings.Split(modelsPlmnid.Mcc, "")
 	mnc := strings.Split(modelsPlmnid.Mnc, "")
+	if len(mcc) != 3 || (len(mnc) != 2 && len(mnc) != 3) {
+		return cdrType.PLMNId{}
+	}
 	if len(modelsPlmnid.Mnc) == 2 {
 		hexString = mcc[1] + mcc[0] + "f" + mcc[2] + mnc[1] + mnc[0]
 	} else {
